@@ -32,6 +32,8 @@ var c06Forms = []refForm{
 	{"https-abs", func(m string) string { return "https://abs.example/x/" + m + ".jpg" }},
 	{"unparseable", func(m string) string { return "%zz/" + m + ".jpg" }},
 	{"rel-query", func(m string) string { return "rel/" + m + ".jpg?a=1&b=2" }},
+	{"comma-path", func(m string) string { return "/cdn/w_400,c_fill/" + m + ".jpg" }},
+	{"comma-rel", func(m string) string { return "cdn/w_400,h_300/" + m + ".jpg" }},
 	{"empty", func(m string) string { return "" }},
 }
 
@@ -246,7 +248,7 @@ func init() {
 		ID:        "C06",
 		DesignRef: "§5 C06",
 		Rule: "host document with 19 URL-carrying positions (block-styled anchors that become the root of their text block, a video with only a poster, a[href] in paragraph/list item/caption/table cell; img src, two srcset candidates, lazy data-src, picture source srcset + img, figure img, video src/poster, video source/track src, img in table), each defaulting to an absolute URL with a unique marker; " +
-			"every assignment of <= 2 (quick) / <= 3 (thorough) positions to one of 13 non-default reference forms (path-relative, ./, ../, root-relative, scheme-relative, query-only, fragment, data:, javascript:, https absolute, unparseable, relative with query, empty) x 4 page URLs. " +
+			"every assignment of <= 2 (quick) / <= 3 (thorough) positions to one of 15 non-default reference forms (paths containing commas, path-relative, ./, ../, root-relative, scheme-relative, query-only, fragment, data:, javascript:, https absolute, unparseable, relative with query, empty) x 4 page URLs. " +
 			"Oracle: each URL attribute/srcset candidate of result.Node outside embed placeholders and each ContentImages entry, traced to its original by marker, equals the statement's rule (pass-through or RFC 3986 resolution against the page URL) and is absolute when resolved. Non-trivial = >= 1 relative reference reached the output.",
 		Enumerate: c06Enumerate,
 		Check:     c06Check,
